@@ -545,6 +545,88 @@ def job_sched(j):
     return d
 
 
+def _R(x):
+    return symx._real(symx._t(x))
+
+
+def _br(ctx, e):
+    if isinstance(ctx, Ctx):
+        return bool(symx.SymBool(e))
+    return z3.is_true(z3.simplify(e))
+
+
+def resched_scenario(ctx):
+    """clock tasks in NRT: a task pending because it returned a delta is scheduled AGAIN on the same clock from
+    another task (symbolic instants): the pending entry MOVES to the new time (no wake-up at the old one, one at the new
+    one), also when the clock's tempo changes afterwards (a cancelled entry must not come back)."""
+    from sc3.base import main as _m, clock as clk, functions as fn
+    main = _m.main
+    which = ctx.choose('clock', 2)
+    after = ctx.choose('after', 2) if which == 1 else 0
+    first_twice = ctx.choose('twice', 2)      # scheduled twice before its first wake-up, too
+    d, tg, r = ctx.real('d', 0, 8), ctx.real('tg', 0, 8), ctx.real('r', 0, 8)
+    rec = {'kind': 'resched', 'mode': 'nrt', 'sel': {'clock': which, 'after': after, 'twice': first_twice},
+           'names': ['d', 'tg', 'r']}
+    data = {'key': f'c09:resched:{("sys", "tempo")[which]}', 'replay': rec}
+    log = []
+    with symx.shims():
+        main.reset()
+        try:
+            clock = clk.SystemClock if which == 0 else clk.TempoClock(1)
+            b0 = clock.beats
+
+            def f(*a):
+                log.append(clock.beats)
+                return None if len(log) >= 4 else d
+            F = fn.Function(f)
+
+            def g(*a):
+                clock.sched(r, F)
+                if after:
+                    clock.tempo = 2
+            if first_twice:
+                clock.sched(3, F)
+            clock.sched(0, F)
+            clock.sched(tg, fn.Function(g))
+            main._clock_scheduler.run()
+        finally:
+            main.reset()
+    exp = [_R(b0)]
+    nxt = _R(b0) + _R(d)
+    moved = False
+    zero = _R(b0) + _R(tg)
+    if _br(ctx, (_R(d) <= 0)) or _br(ctx, (_R(tg) <= 0)):
+        raise PathAbort('d, tg > 0')
+    while len(exp) < 4:
+        if not moved:
+            if _br(ctx, (zero == nxt)):
+                raise PathAbort('tie between the wake-up and the re-scheduling task')
+            if _br(ctx, (zero < nxt)):
+                nxt = zero + _R(r)
+                moved = True
+        exp.append(nxt)
+        nxt = nxt + _R(d)
+    if not moved:
+        raise PathAbort('the task ended before it was scheduled again')
+    if len(log) != 4:
+        raise Violation(f're-scheduled clock task woke {len(log)} times, expected 4', None, data)
+    for i in range(4):
+        ctx.prove(_R(log[i]) == exp[i], f're-scheduled clock task: wake-up {i} not at the beat the last scheduling '
+                  f'says (woke at {log}: a pending entry was not moved, or a cancelled one came back)', data)
+    ctx.note('resched')
+    return {'log': len(log)}
+
+
+def job_resched(j):
+    st = explore(resched_scenario, max_paths=20000, timeout_ms=10000, stop_on_violation=True)
+    d = st.as_dict()
+    for v in d['violations']:
+        rec = v['data']['replay']
+        rec['values'] = {n: (v['model'] or {}).get(n) for n in rec['names']}
+        rec['what'] = v['what']
+    return d
+
+
 def ctx_model(ctx):
     try:
         return ctx.model()
@@ -587,7 +669,7 @@ def replay(rec):
         except Violation as v:
             return v.what
         return None
-    if rec['kind'] in ('ppar', 'sched'):
+    if rec['kind'] in ('ppar', 'sched', 'resched'):
         class C2:
             obligations = discharged = 0
 
@@ -606,7 +688,7 @@ def replay(rec):
                 if not ok:
                     raise Violation(what, None, data)
         try:
-            (ppar_scenario if rec['kind'] == 'ppar' else sched_scenario)(C2())
+            {'ppar': ppar_scenario, 'sched': sched_scenario, 'resched': resched_scenario}[rec['kind']](C2())
         except Violation as v:
             return v.what
         return None
@@ -678,6 +760,9 @@ def main(tier, seed):
     for r in run_jobs('vf.props.c09', 'job_sched', [dict()], 'nrt'):
         chk.add('clock_scheduler', r)
     chk.require_notes('clock_scheduler', ['scheduler'])
+    for r in run_jobs('vf.props.c09', 'job_resched', [dict()], 'nrt'):
+        chk.add('clock_reschedule', r)
+    chk.require_notes('clock_reschedule', ['resched'])
     for r in run_jobs('vf.props.c09', 'job_ppar', [dict()], 'nrt'):
         chk.add('parallel_streams', r)
     chk.require_notes('parallel_streams', ['ppar:' + m_ for m_ in PPAR_MODES])
